@@ -50,37 +50,35 @@ def main():
     confirmed = rc0 == 0 and rc1 != 0 and "976 passed" in meta["suite_patched"] and "5 failed" in meta["suite_patched"]
     meta["confirmed"] = confirmed
     print("confirmed:", confirmed, meta["demo_unpatched"], meta["suite_patched"], meta["demo_patched"])
-    # run the checks against /repo with the patch
-    rc, out = sh("git -C /repo status --short")
-    if out.strip():
-        print("/repo is not clean, refusing:", out)
-        return 2
-    rc, out = sh("git -C /repo apply %s" % diff)
+    # run the checks against a scratch copy of /repo's package with the patch applied (several evaluations can
+    # run side by side; /repo itself is not touched)
+    root = os.path.join("/tmp/seedeval", sid)
+    shutil.rmtree(root, ignore_errors=True)
+    os.makedirs(root)
+    shutil.copytree("/repo/flumine", os.path.join(root, "flumine"))
+    rc, out = sh("git init -q . && git apply %s" % diff, root)
     if rc != 0:
         print("patch does not apply to /repo:", out)
         meta["applies_to_repo"] = False
     else:
         meta["applies_to_repo"] = True
-        try:
-            man = json.load(open(os.path.join(VERIF, "MANIFEST.json")))
-            res = {}
-            for c in man["checks"]:
-                pid = c["property_id"]
-                rcx, o = sh("./check %s --no-evidence" % pid, VERIF)
-                v = [l for l in o.splitlines() if l.startswith("VIOLATION") or l.startswith("ANALYSIS-ERROR")]
-                rules = [l.strip() for l in o.splitlines() if l.strip().startswith("%s rule" % pid)]
-                res[pid] = {"exit": rcx, "reports": rules[:6]}
-            meta["checks"] = res
-            det = [p for p, r in res.items() if r["exit"] == 1]
-            und = [p for p, r in res.items() if r["exit"] == 2]
-            meta["detected_by"] = det
-            meta["undecided"] = und
-            print("detected by:", det, "undecided:", und)
-            for p in det:
-                for r in res[p]["reports"][:3]:
-                    print("   ", r)
-        finally:
-            sh("git -C /repo checkout -- .")
+        man = json.load(open(os.path.join(VERIF, "MANIFEST.json")))
+        res = {}
+        for c in man["checks"]:
+            pid = c["property_id"]
+            rcx, o = sh("./check %s --no-evidence --root %s" % (pid, root), VERIF)
+            rules = [l.strip() for l in o.splitlines() if l.strip().startswith("%s rule" % pid)]
+            res[pid] = {"exit": rcx, "reports": rules[:6]}
+        meta["checks"] = res
+        det = [p for p, r in res.items() if r["exit"] == 1]
+        und = [p for p, r in res.items() if r["exit"] not in (0, 1)]
+        meta["detected_by"] = det
+        meta["undecided"] = und
+        print("detected by:", det, "undecided:", und)
+        for p in det:
+            for r in res[p]["reports"][:3]:
+                print("   ", r)
+    shutil.rmtree(root, ignore_errors=True)
     out_dir = os.path.join(VERIF, "seeded", sid)
     os.makedirs(out_dir, exist_ok=True)
     shutil.copy(diff, os.path.join(out_dir, "patch.diff"))
@@ -88,6 +86,15 @@ def main():
     if os.path.exists(notes):
         shutil.copy(notes, os.path.join(out_dir, "notes.md"))
     meta["needs"] = ""
+    if os.path.exists(notes):
+        import re
+        t = open(notes).read()
+        mm = re.search(r'(?:NEEDED TO MANIFEST|Needed to manifest|NEEDS|Needs|What it needs|Trigger|Conditions)[^:\n]*:\s*(.*?)(?:\n\s*\n|\nCOMMANDS|\nCommands|\Z)', t, re.S | re.I)
+        if mm:
+            meta["needs"] = " ".join(mm.group(1).split())[:600]
+    meta["ran"] = ["suite on the patched worktree: " + str(meta.get("suite_patched")),
+                   "demo.py without the patch: exit %s" % meta.get("demo_unpatched", {}).get("exit"),
+                   "demo.py with the patch: exit %s" % meta.get("demo_patched", {}).get("exit")]
     json.dump(meta, open(os.path.join(out_dir, "meta.json"), "w"), indent=1)
     return 0
 
